@@ -11,6 +11,7 @@ Case (JSON):
    "kw": [[key, ["one",ATOM] | ["many",[ATOM...]]]...], "elems": [ATOM...],
    "script": str, "host": str, "query": str|null, "anchor": str|null [, "expect_fail": clause]}
   ATOM = ["s",text] | ["b",[byte...]] | ["i","-12"] | ["o","1.5"|"None"|"True"|"False"|"1.0"|"0.0"|"2.50" (a Decimal)]
+  optional "kw_history": [[[key, VAL]...]...] — keyword dictionaries of earlier route_path calls on the same route object
   optional "history": [[ATOM...]...] — element tuples of earlier route_path calls on the same route (the lru_cache)
 """
 import json, re, sys
@@ -179,6 +180,17 @@ def wf_case(case):
         for h in case.get('history', []):
             for a in h:
                 atom_py(a)
+        for hk in case.get('kw_history', []):
+            if len(set(k for k, _ in hk)) != len(hk):
+                return False
+            for k, v in hk:
+                if not isinstance(k, str) or k.startswith('_') or k in ('self', 'route_name') or k == '':
+                    return False
+                if not (isinstance(v, list) and len(v) == 2 and v[0] in ('one', 'many')):
+                    return False
+                for a in ([v[1]] if v[0] == 'one' else v[1]):
+                    atom_py(a)
+                    atom_text(a)
         if not isinstance(case['script'], str) or (case['script'] and not case['script'].startswith('/')):
             return False
         case['script'].encode('utf-8')
@@ -304,7 +316,14 @@ def err_name(e):
 
 
 def closure_var(fn, name):
-    return fn.__closure__[fn.__code__.co_freevars.index(name)].cell_contents
+    """OPTIONAL structural read: the closure's `%`-template, when the generator happens to be a closure with a free
+    variable of that name holding a str.  Any other shape of the source gives None (the comparison is then skipped
+    and counted in the evidence) — never an error, never an alarm."""
+    try:
+        v = fn.__closure__[fn.__code__.co_freevars.index(name)].cell_contents
+        return v if isinstance(v, str) else None
+    except Exception:
+        return None
 
 
 def canon_match(d):
@@ -320,8 +339,8 @@ def canon_match(d):
 _APPS = {}
 
 
-def get_app(pattern):
-    ent = _APPS.get(pattern)
+def get_app(pattern, fresh=False):
+    ent = None if fresh else _APPS.get(pattern)
     if ent is None:
         from pyramid.config import Configurator
         from pyramid.response import Response
@@ -345,6 +364,8 @@ def get_app(pattern):
             ent = (config.registry, app, seen, route)
         except Exception as e:
             ent = ('config_error', type(e).__name__ + ':' + str(getattr(e, 'evalue', e))[:80])
+        if fresh:
+            return ent
         if len(_APPS) > 4000:
             _APPS.clear()
         _APPS[pattern] = ent
@@ -368,10 +389,27 @@ def call(fn, *a, **k):
         return {'err': err_name(e)}
 
 
-def impl(case):
+def clear_process_state(all_modules):
+    """empty every memo the URL code keeps in the process — found generically (anything with cache_clear/cache_info,
+    any module-level dict whose name ends in `_cache`), no name is assumed"""
+    import pyramid.url, pyramid.traversal, pyramid.urldispatch
+    for mod in ((pyramid.url, pyramid.traversal, pyramid.urldispatch) if all_modules else (pyramid.url,)):
+        for name, obj in list(vars(mod).items()):
+            if callable(obj) and hasattr(obj, 'cache_clear') and hasattr(obj, 'cache_info'):
+                obj.cache_clear()
+            elif all_modules and isinstance(obj, dict) and name.endswith('_cache'):
+                obj.clear()
+
+
+def impl(case, isolated=False):
+    """isolated (or a case with an explicit history): a fresh application and empty process-wide memos, then the
+    case's own history, then the call — the case is self-contained and replays alone.  Otherwise the application is
+    shared by all cases with the pattern and only the element cache is emptied (cross-case history is exercised)."""
     from pyramid.request import Request
     pattern = render(case['intent'])
-    ent = get_app(pattern)
+    fresh = isolated or bool(case.get('kw_history'))
+    isolated = fresh or bool(case.get('history'))
+    ent = get_app(pattern, fresh=fresh)
     if ent[0] == 'config_error':
         return {'config_error': ent[1]}
     registry, app, seen, route = ent
@@ -384,13 +422,11 @@ def impl(case):
     if case['anchor'] is not None:
         special['_anchor'] = case['anchor']
     out = {'template': closure_var(route.generate, 'gen')}
-    # every case starts from an empty element cache, so that a case (with its explicit history) is self-contained and
-    # replays alone; the cache sits on _join_text_elements since 9c714c3, on _join_elements before
-    import pyramid.url
-    for fname in ('_join_text_elements', '_join_elements'):
-        fn = getattr(pyramid.url, fname, None)
-        if hasattr(fn, 'cache_clear'):
-            fn.cache_clear()
+    clear_process_state(isolated)
+    for hk in case.get('kw_history', []):
+        hreq = Request(dict(env))
+        hreq.registry = registry
+        call(hreq.route_path, 'r', **{k: val_py(v) for k, v in hk})
     if case.get('history'):
         hreq = Request(dict(env))
         hreq.registry = registry
@@ -539,7 +575,7 @@ def compare(case, got, mo, an):
     if mo.get('compile') != 'ok':
         return [('compile', 'ok', mo.get('compile'))]
     outside = any(v[0] == 'many' and k != an['rest'] for k, v in case['kw'])
-    if got['template'] != mo['template']:
+    if got['template'] is not None and got['template'] != mo['template']:
         diffs.append(('template', got['template'], mo['template']))
     if mo['path'] != mo['path_nocache']:
         diffs.append(('cache-transparent', mo['path'], mo['path_nocache']))
@@ -764,6 +800,8 @@ def with_ctl(rng, text):
 
 
 def gen_atom(rng, text, p_other=0.2):
+    if rng.random() < 0.04:
+        return rng.choice(rng.choice(EQUAL_CLASSES))      # 1 / True / 1.0, 0 / False / 0.0
     r = rng.random()
     if r < 1 - p_other - 0.15:
         return ['s', text]
@@ -911,7 +949,47 @@ def gen_case(rng, intent=None):
             'query': rng.choice(QUERIES), 'anchor': rng.choice(ANCHORS)}
     if history:
         case['history'] = history
+    if rng.random() < 0.12:
+        kh = gen_kw_history(rng, it, kw)
+        if kh:
+            case['kw_history'] = kh
     return case
+
+
+def equal_variant(rng, a):
+    """an atom that compares equal (==, hash) to `a`, or stands for the same text, but is another object"""
+    cls = [c for c in EQUAL_CLASSES if a in c]
+    if cls:
+        return rng.choice([x for x in cls[0] if x != a])
+    if a[0] == 's':
+        return ['b', list(a[1].encode('utf-8'))]
+    if a[0] == 'b':
+        t = atom_text(a)
+        return ['s', t] if t is not None else a
+    if a[0] == 'i':
+        return ['s', str(int(a[1]))]
+    return a
+
+
+def gen_kw_history(rng, intent, kw):
+    """earlier route_path calls on the same route object: the same keys with values that are equal-but-other-typed,
+    and a complete dictionary when this call leaves a value out"""
+    names = [t[1] for t in intent if t[0] != 'lit']
+    rest = intent[-1][1] if intent[-1][0] == 'rest' else None
+    have = dict((k, v) for k, v in kw)
+    out = []
+    for _ in range(rng.choice([1, 1, 2])):
+        hk = []
+        for n in names:
+            v = have.get(n)
+            if v is None:
+                v = ['one', gen_atom(rng, gen_text(rng, forbid='/'))] if n != rest or rng.random() < 0.5 else \
+                    ['many', [gen_atom(rng, gen_text(rng, 3, forbid='/'))]]
+            elif rng.random() < 0.7:
+                v = ['one', equal_variant(rng, v[1])] if v[0] == 'one' else ['many', [equal_variant(rng, a) for a in v[1]]]
+            hk.append([n, v])
+        out.append(hk)
+    return out
 
 
 def equal_elements_cases():
@@ -980,7 +1058,7 @@ def shrink_violation(v):
         if not wf_case(c):
             return False
         an = analysis(c)
-        got = impl(c)
+        got = impl(c, isolated=True)
         bad = oracle(c, got, an)
         if not bad or not (set(x[0] for x in bad) & clauses):
             return False
@@ -991,7 +1069,7 @@ def shrink_violation(v):
         return v
     if small != v['case']:
         an = analysis(small)
-        got = impl(small)
+        got = impl(small, isolated=True)
         bad = oracle(small, got, an)
         v = dict(v, case=small, impl={k: got.get(k) for k in ('gen', 'path', 'url', 'path0', 'pathinfo', 'seen')},
                  expected={'intended': an['intended'], 'match': an['expect']},
@@ -1003,7 +1081,7 @@ def new_dist():
     return {'tokens': {}, 'placeholders_per_pattern': {}, 'rest': 0, 'custom_regex': 0, 'value_types': {}, 'rest_forms': {},
             'elements': {}, 'script': {}, 'outcomes': {}, 'admissible': 0, 'not_admissible': {}, 'roundtrips_performed': 0,
             'needs_quoting': 0, 'non_ascii_value': 0, 'reserved_in_value': 0, 'missing_value': 0, 'unquotable': 0,
-            'outside_model': 0, 'config_error': 0, 'rest_with_control_char': 0, 'with_history': 0, 'history_equal_other_type': 0, 'excluded_points_replayed': 0, 'query': 0, 'anchor': 0}
+            'outside_model': 0, 'config_error': 0, 'template_not_readable': 0, 'rest_with_control_char': 0, 'with_history': 0, 'with_kw_history': 0, 'history_equal_other_type': 0, 'excluded_points_replayed': 0, 'query': 0, 'anchor': 0}
 
 
 def note_dist(dist, case, info):
@@ -1026,6 +1104,8 @@ def note_dist(dist, case, info):
         if k == an['rest']:
             bump(dist['rest_forms'], 'string' if v[0] == 'one' else 'sequence')
     bump(dist['elements'], str(len(case['elems'])))
+    if case.get('kw_history'):
+        dist['with_kw_history'] += 1
     if case.get('history'):
         dist['with_history'] += 1
         try:
@@ -1042,6 +1122,8 @@ def note_dist(dist, case, info):
     if 'config_error' in got:
         dist['config_error'] += 1
         return
+    if got.get('template') is None:
+        dist['template_not_readable'] += 1
     bump(dist['outcomes'], 'path' if 'ok' in got['path'] else got['path']['err'])
     if an['admissible']:
         dist['admissible'] += 1
@@ -1094,8 +1176,25 @@ def run_cases(ctx, cases, dist, seen, nontriv, use_model=True):
     return len(cases), agree, mism, viol
 
 
+def reproduces_alone(v):
+    """does the violation show when the case is run on its own (fresh application, empty memos, its own history)?"""
+    try:
+        c = v['case']
+        an = analysis(c)
+        bad = oracle(c, impl(c, isolated=True), an)
+        return bool(bad) and bool(set(x[0] for x in bad) & set(v.get('clauses', [])))
+    except Exception:
+        return False
+
+
 def finish_violations(viol):
-    """shrink the first few unknown violations, keep one per known finding"""
+    """prefer violations that reproduce on their own (a replay file must be a concrete failing input), shrink the
+    first few, keep one per known finding"""
+    unknown = [v for v in viol if not v.get('finding')]
+    if unknown:
+        alone = [v for v in unknown[:400] if reproduces_alone(v)]
+        if alone:
+            viol = [v for v in viol if v.get('finding')] + alone
     out, shrunk = [], 0
     kept_known = set()
     for v in viol:
@@ -1146,7 +1245,7 @@ def run(ctx):
                 break
     return {'evaluations': total, 'distinct_nontrivial': len(nontriv), 'rule': RULE, 'samples': samples, 'agreeing': agree,
             'mismatches': mism[:20], 'violations': finish_violations(viol), 'distribution': dist,
-            'notes': ['stages compared per case: %-template, route.generate, route_path, route_url, PATH_INFO bytes, '
+            'notes': ['stages compared per case: %-template (only when the closure exposes one: an optional structural read), route.generate, route_path, route_url, PATH_INFO bytes, '
                       'decoded path_info, matched route + matchdict; the model\'s Admissible / intended / expected are compared '
                       'with the oracle\'s own reading of the case'],
             'assumptions': ['the pattern text is read by the documented grammar as the intent tokens (faithful()); custom '
